@@ -8,6 +8,7 @@ package main
 
 import (
 	"fmt"
+	"go/constant"
 	"go/token"
 	"math/big"
 	"regexp"
@@ -154,7 +155,20 @@ func cmpNorm(t *T, truth bool, rename func(string) string) (string, bool) {
 	case token.LEQ:
 		d, op = d.scale(big.NewInt(-1)), token.GEQ
 	}
+	// over the integers d > 0 is d - 1 >= 0: one spelling for  a > b  and  a >= b + 1
+	if op == token.GTR && intTyped(t.Args[0]) && intTyped(t.Args[1]) {
+		m := newTLin()
+		m.Const.SetInt64(-1)
+		d, op = d.add(m, 1), token.GEQ
+	}
 	return d.String() + " " + op.String() + " 0", true
+}
+
+func intTyped(t *T) bool {
+	if t.K == "const" {
+		return t.C != nil && t.C.Kind() == constant.Int
+	}
+	return t.Typ != nil && isIntType(t.Typ)
 }
 
 // sumLoop recognises  total := 0; for _, e := range recv.F { total += e.G }; return total
